@@ -204,13 +204,18 @@ def dtype_stream(ctx):
 
     rng = ctx.rng
     N = ctx.scale(260, 3000)
-    for i in range(N):
-        dt = rng.choice(["i4", "u1", "f4", "i8", "f8", "i2"])
-        n0, n1 = rng.randint(3, 9), rng.randint(2, 6)
+    # every run, whatever the seed: each promoting (input dtype, nan-reduction) pair over a sliding window on the native
+    # plan (chunks larger than window-1) and on the overlap plan, so that these classes do not depend on the random draws
+    forced = [(dt, fn, w, ch) for dt in ("i4", "u1", "i2", "f4") for fn in ("nansum", "nanprod", "sum")
+              for w, ch in ((2, ((4, 4), (3,))), (3, ((5, 3), (2, 1))), (1, ((2, 3, 3), (3,))))]
+    for i in range(N + len(forced)):
+        f = forced[i] if i < len(forced) else None
+        dt = f[0] if f else rng.choice(["i4", "u1", "f4", "i8", "f8", "i2"])
+        n0, n1 = (8, 3) if f else (rng.randint(3, 9), rng.randint(2, 6))
         data = ((np.arange(n0 * n1) * 7 + 3) % 23).reshape(n0, n1).astype(dt)
-        chunks = tuple(P.rand_chunks_nd(rng, (n0, n1)))
+        chunks = f[3] if f else tuple(P.rand_chunks_nd(rng, (n0, n1)))
         x = da.from_array(data, chunks=chunks)
-        kind = rng.choice(["elem-dtype", "reduce", "swv-nan", "astype", "mean", "cumsum"])
+        kind = "swv-nan" if f else rng.choice(["elem-dtype", "reduce", "swv-nan", "astype", "mean", "cumsum"])
         case = {"dtype": dt, "shape": [n0, n1], "chunks": [list(c) for c in chunks], "kind": kind}
         try:
             with warnings.catch_warnings():
@@ -226,9 +231,9 @@ def dtype_stream(ctx):
                     y = getattr(da, fn)(x, axis=ax)
                     case.update(fn=fn, axis=ax)
                 elif kind == "swv-nan":
-                    fn = rng.choice(["nansum", "nanprod", "sum", "nanmax"])
-                    w = rng.randint(1, n0)
-                    kw = {"dtype": "f8"} if dt == "f4" and fn in ("nansum", "nanprod", "sum") and rng.random() < 0.5 else {}
+                    fn = f[1] if f else rng.choice(["nansum", "nanprod", "sum", "nanmax"])
+                    w = f[2] if f else rng.randint(1, n0)
+                    kw = {"dtype": "f8"} if dt == "f4" and fn in ("nansum", "nanprod", "sum") and (f or rng.random() < 0.5) else {}
                     y = getattr(da, fn)(da.sliding_window_view(x, w, axis=0), axis=-1, **kw)
                     case.update(fn=fn, window=w, kw=kw)
                 elif kind == "astype":
@@ -239,7 +244,7 @@ def dtype_stream(ctx):
                     y = x.mean(axis=rng.choice([0, 1]))
                 else:
                     y = da.cumsum(x, axis=rng.choice([0, 1]))
-                post = rng.choice(["none", "take", "slice", "rechunk", "times"])
+                post = ("none", "slice", "times")[i % 3] if f else rng.choice(["none", "take", "slice", "rechunk", "times"])
                 case["post"] = post
                 if post == "take" and y.ndim:
                     d = y.shape[0]
